@@ -42,11 +42,34 @@ ASSUMPTIONS = [
 
 def run(ctx):
   ds_norm_identity(ctx)
+  ds_excluded_parameters(ctx)
   graft_accumulator_precision(ctx)
   tearfree_maybe_graft(ctx)
   tearfree_dispatch(ctx)
   tearfree_norm_optimisers(ctx)
   tearfree_mask(ctx)
+
+
+def ds_excluded_parameters(ctx):
+  """R3 (Distributed Shampoo): which parameters are excluded from preconditioning (and therefore always take the
+  grafting optimizer's step) is exactly the documented set: rank below skip_preconditioning_rank_lt, or any dimension
+  greater than skip_preconditioning_dim_size_gt."""
+  from ..spec import spec_term, Comparer
+  m = ctx.model
+  fi = m.func(MOD, F + '._skip_preconditioning')
+  ctx.analysed(fi)
+  ev = evaluator(m)
+  r = ev.run(fi)
+  names = [a.arg for a in fi.node.args.args]
+  if len(names) != 1:
+    raise AnalysisError('_skip_preconditioning is expected to take the parameter alone')
+  env = {'param': sym('param', fi.short, names[0]), 'rank_lt': sym('cfg', F, 'skip_preconditioning_rank_lt'),
+         'dim_gt': sym('cfg', F, 'skip_preconditioning_dim_size_gt')}
+  exp = spec_term(ev, 'len(param.shape) < rank_lt or any([s > dim_gt for s in param.shape])', env)
+  cmpr = Comparer()
+  ctx.ob('C05.R3', fi.short, 'excluded parameters: rank < rank_lt or any dim > dim_size_gt', cmpr.same(r, exp),
+         f'a parameter is excluded from preconditioning iff its rank is below skip_preconditioning_rank_lt or some dimension exceeds '
+         f'skip_preconditioning_dim_size_gt; got `{cmpr.fmt(r)[:240]}`', ctx.loc(fi), sample='len(shape) < rank_lt or any(s > dim_gt)')
 
 
 def graft_accumulator_precision(ctx):
